@@ -108,6 +108,9 @@ func docs() []doc {
 		{"zeta", "Alpha2", "Zed", "able"},
 		// identifiers whose first letter is not ASCII
 		{"ölstand", "émission", "größe", "ñu"},
+		// one object's name is a proper part of the other's (and of an ignore argument below)
+		{"pod", "podspec", "spec", "pods"},
+		{"podspec", "pod", "spec", "pods"},
 	} {
 		for _, t := range []string{"integer", "ref"} {
 			mk := func(n string) propT {
@@ -128,6 +131,8 @@ var argForms = [][]string{
 	{"schema_input.yaml", "beta"}, // ignore an object that may exist
 	{"schema_input.yaml", "nodespec"},
 	{"schema_input.yaml", "Other"}, // ignore an object that does not exist
+	{"schema_input.yaml", "podspec"},
+	{"schema_input.yaml", "pod"},
 }
 
 type batch struct {
